@@ -16,3 +16,62 @@ CONTRACT[K + 'deltaForm'] = dict(self=mk_sequence(), params={'bloblen': 'int'}, 
                                  ensures=['result == dform(self.seq, self.len, bloblen)'], modifies=[])
 LOOPS[K + 'deltaForm'] = {0: dict(index='i', invariant=['ans == dform_upto(self.seq, self.len, bloblen, i)'])}
 CONTRACT[K + 'delta'] = dict(self=mk_sequence(), ensures=['result == delta_spec(self.seq, self.len)'], modifies=[])
+
+# ----------------------------------------------------------------------------- C09.a: titration sum
+CONTRACT[K + 'charge_at_pH'] = dict(
+    self=mk_sequence(), params={'pH': 'real', 'mode': ('const', ''), 'normalize': ('const', False)},
+    cases=[dict(params={'mode': ('const', ''), 'normalize': ('const', False)}),
+           dict(params={'mode': ('const', 'TOTAL'), 'normalize': ('const', False)}),
+           dict(params={'mode': ('const', ''), 'normalize': ('const', True)})],
+    ensures=["result == (hh_sum(self.seq, pH, (1 if mode == 'TOTAL' else -1), 0, self.len) if not normalize else "
+             "(0 if n_titratable(self.seq, 0, self.len) == 0 else hh_sum(self.seq, pH, (1 if mode == 'TOTAL' else -1), 0, self.len) / toreal(n_titratable(self.seq, 0, self.len))))"],
+    modifies=[])
+LOOPS[K + 'charge_at_pH'] = {0: dict(index='k', invariant=[
+    "total == hh_sum(self.seq, pH, (1 if mode == 'TOTAL' else -1), 0, k)",
+    "countable_residues == n_titratable(self.seq, 0, k)"], types={'total': 'real'})}
+
+_FR = "(toreal(npos(self.seq, 0, self.len) %s nneg(self.seq, 0, self.len)) / self.len)"
+CONTRACT[K + 'FCR'] = dict(
+    self=mk_sequence(), params={'pH': 'none'}, cases=[dict(params={'pH': 'none'}), dict(params={'pH': 'real'})],
+    ensures=["result == (" + _FR % '+' + " if pH is None else hh_sum(self.seq, pH, 1, 0, self.len) / self.len)"], modifies=[])
+CONTRACT[K + 'NCPR'] = dict(
+    self=mk_sequence(), params={'pH': 'none'}, cases=[dict(params={'pH': 'none'}), dict(params={'pH': 'real'})],
+    ensures=["result == (" + _FR % '-' + " if pH is None else hh_sum(self.seq, pH, -1, 0, self.len) / self.len)"], modifies=[])
+CONTRACT[K + 'mean_net_charge'] = dict(
+    self=mk_sequence(), params={'pH': 'none'}, cases=[dict(params={'pH': 'none'}), dict(params={'pH': 'real'})],
+    ensures=["result == absv(" + _FR % '-' + " if pH is None else hh_sum(self.seq, pH, -1, 0, self.len) / self.len)"], modifies=[])
+CONTRACT[K + 'FER'] = dict(
+    self=mk_sequence(), params={'pH': 'none'}, cases=[dict(params={'pH': 'none'}), dict(params={'pH': 'real'})],
+    ensures=["result == ((toreal(npos(self.seq, 0, self.len) + nneg(self.seq, 0, self.len) + n_pro(self.seq, 0, self.len)) / self.len) if pH is None "
+             "else (hh_sum(self.seq, pH, 1, 0, self.len) + n_pro(self.seq, 0, self.len)) / self.len)"], modifies=[])
+
+# ----------------------------------------------------------------------------- C07
+CONTRACT[K + 'sequence_charge_decoration'] = dict(self=mk_sequence(), ensures=['result == scd_spec(self.seq, self.len)'], modifies=[])
+LOOPS[K + 'sequence_charge_decoration'] = {
+    0: dict(index='m', invariant=['total == scd_outer(self.seq, m)'], types={'total': 'real'}),
+    1: dict(index='n', invariant=['total == scd_outer(self.seq, m) + scd_inner(self.seq, m, n)'], types={'total': 'real'}),
+}
+
+# ----------------------------------------------------------------------------- C08
+CONTRACT[K + 'phasePlotRegion'] = dict(
+    self=mk_sequence(),
+    ensures=['result == region_spec(npos(self.seq, 0, self.len), nneg(self.seq, 0, self.len), self.len)',
+             'Or(result == 1, result == 2, result == 3, result == 4, result == 5)'],
+    raises=[], modifies=[],
+    lemmas=['count_partition(self.seq, 0, self.len)', 'npos_nonneg(self.seq, 0, self.len)', 'nneg_nonneg(self.seq, 0, self.len)',
+            'nneut_nonneg(self.seq, 0, self.len)'])
+CONTRACT[K + 'phasePlotAnnotation'] = dict(
+    self=mk_sequence(), modifies=[], raises=[], returns='opaque',
+    ensures=[])
+
+# ----------------------------------------------------------------------------- C09.d: isoelectric point
+CONTRACT[K + 'isoelectric_point'] = dict(
+    self=mk_sequence(), modifies=[],
+    may_raise=[('SequenceException', 'True')],     # that the search never gives up is NOT proved (bounded check only)
+    ensures=['absv(charge_norm(self.seq, self.len, result)) <= 0.02',
+             'implies(n_titratable(self.seq, 0, self.len) == 0, result == 7.0)'])
+LOOPS[K + 'isoelectric_point'] = {0: dict(
+    types={'protein_charge': 'real', 'min_pH': 'real', 'max_pH': 'real', 'mid_pH': 'real'},
+    invariant=['And(0 <= breakcount, breakcount <= 19)', 'And(0 <= errorcount, errorcount <= 10)',
+               'implies(n_titratable(self.seq, 0, self.len) == 0, And(min_pH == 0, max_pH == 14, breakcount == 0))'],
+    variant='(10 - errorcount, 20 - breakcount)')}
